@@ -16,7 +16,7 @@ PROP = "C03"
 def tier_cfg(tier):
     if tier == "quick":
         return {"depth": 2, "kd": 2, "ke": 1, "slice_depth": 0, "d_rows": inputs.D_ROWS_Q, "e_rows": inputs.E_ROWS_Q, "eager_model": False}
-    return {"depth": 2, "kd": 3, "ke": 2, "slice_depth": 3, "d_rows": inputs.D_ROWS, "e_rows": inputs.E_ROWS, "eager_model": True}
+    return {"depth": 2, "kd": 3, "ke": 2, "slice_depth": 2, "d_rows": inputs.D_ROWS, "e_rows": inputs.E_ROWS, "eager_model": True}
 
 
 def method_menu(cols, roles, depth, hist):
